@@ -414,7 +414,7 @@ Theorem C03_unforced_lazy_result_of_generator_backed_source :
   lazy_result V dflt Nm nmeqb sc c R = Some (sc', rows) ->
   materialises V Nm o = true ->
   exists st x,
-    hrun V veqb dflt Nm nmeqb false (hstart V Nm [mkHI sc R true] (mkHS [] []))
+    hrun V veqb dflt Nm nmeqb false (hstart V Nm [mkHI sc R KGen] (mkHS [] []))
          [mkHStep 0 (HOp c); mkHStep 0 (HOp o); mkHStep 1 HList; mkHStep 0 HList]
     = (st, [HNew [names sc']; x; HVal (ORows rows); HVal (ORows R)]).
 Proof. exact unforced_lazy_generator_source. Qed.
@@ -432,7 +432,7 @@ Theorem C03_unforced_lazy_results_of_lazy_intermediate :
   lazy_result V dflt Nm nmeqb sc0 c2 M = Some (sc2, L2) ->
   materialises V Nm o = true ->
   exists st x,
-    hrun V veqb dflt Nm nmeqb false (hstart V Nm [mkHI sc R false] (mkHS [] []))
+    hrun V veqb dflt Nm nmeqb false (hstart V Nm [mkHI sc R KList] (mkHS [] []))
       [mkHStep 0 (HOp c0); mkHStep 1 (HOp c1); mkHStep 1 (HOp c2);
        mkHStep 1 (HOp o); mkHStep 2 HList; mkHStep 3 HList; mkHStep 1 HList; mkHStep 0 HList]
     = (st, [HNew [names sc0]; HNew [names sc1]; HNew [names sc2]; x;
@@ -449,7 +449,7 @@ Theorem C03_unforced_child_of_list_backed_source :
   lazy_result V dflt Nm nmeqb sc c R = Some (sc', rows) ->
   observes V Nm o = true ->
   exists st x,
-    hrun V veqb dflt Nm nmeqb false (hstart V Nm [mkHI sc R false] (mkHS [] []))
+    hrun V veqb dflt Nm nmeqb false (hstart V Nm [mkHI sc R KList] (mkHS [] []))
          [mkHStep 0 (HOp c); mkHStep 0 (HOp o); mkHStep 1 HList; mkHStep 0 HList]
     = (st, [HNew [names sc']; x; HVal (ORows rows); HVal (ORows R)]).
 Proof. exact unforced_child_of_list. Qed.
@@ -505,10 +505,10 @@ Example C03_unforced_nonvacuous :
   lazy_result Z 0%Z N N.eqb sc (Take [2; 0]%Z) R = Some (sc, [[1; 2; 3]; [7; 8; 9]]%Z) /\
   materialises Z N Len = true /\ materialises Z N (Head 1%Z) = true /\
   materialises Z N (Collect [CIdx 0%Z] None) = true /\ observes Z N Iterate = true /\
-  c03h_run false ([mkHI sc R true],
+  c03h_run false ([mkHI sc R KGen],
                   [mkHStep 0 (HOp (Filter [true; false; true])); mkHStep 0 (HOp Len); mkHStep 1 HList; mkHStep 0 HList], [])
     = [HNew [[0%N; 1%N; 2%N]]; HVal (ONat 3); HVal (ORows [[1; 2; 3]; [7; 8; 9]]%Z); HVal (ORows R)] /\
-  c03h_run false ([mkHI sc R true],
+  c03h_run false ([mkHI sc R KGen],
                   [mkHStep 0 (HOp (Take [2; 0]%Z)); mkHStep 0 (HOp (Head 1%Z)); mkHStep 1 HList; mkHStep 0 HList], [])
     = [HNew [[0%N; 1%N; 2%N]]; HNew [[0%N; 1%N; 2%N]]; HVal (ORows [[1; 2; 3]; [7; 8; 9]]%Z); HVal (ORows R)].
 Proof. repeat split; vm_compute; reflexivity. Qed.
@@ -519,7 +519,7 @@ Proof. repeat split; vm_compute; reflexivity. Qed.
 Example C03_select_bound_at_creation_refuted :
   exists (sc : schema N) (R : list (list Z)) (attrs : list N) (rows : list (list Z)),
     spec_select Z 0%Z N N.eqb attrs (names sc) R = Ok rows /\
-    c03h_run true ([mkHI sc R true],
+    c03h_run true ([mkHI sc R KGen],
                    [mkHStep 0 (HOp (Select attrs)); mkHStep 0 (HOp Len); mkHStep 1 HList; mkHStep 0 HList], [])
     <> [HNew [attrs]; HVal (ONat (length R)); HVal (ORows rows); HVal (ORows R)].
 Proof.
@@ -530,7 +530,7 @@ Qed.
 (* F-C03-6, the code before 75a1e72 (filter and take as generator expressions over self._rows) *)
 Example C03_filter_bound_at_creation_refuted :
   exists (sc : schema N) (R : list (list Z)) (mask : list bool),
-    c03h_run true ([mkHI sc R true],
+    c03h_run true ([mkHI sc R KGen],
                    [mkHStep 0 (HOp (Filter mask)); mkHStep 0 (HOp Len); mkHStep 1 HList; mkHStep 0 HList], [])
     <> [HNew [names sc]; HVal (ONat (length R)); HVal (ORows (spec_filter Z mask R)); HVal (ORows R)].
 Proof.
@@ -540,7 +540,7 @@ Qed.
 
 Example C03_take_bound_at_creation_refuted :
   exists (sc : schema N) (R : list (list Z)) (idx : list Z),
-    c03h_run true ([mkHI sc R true],
+    c03h_run true ([mkHI sc R KGen],
                    [mkHStep 0 (HOp (Take idx)); mkHStep 0 (HOp Len); mkHStep 1 HList; mkHStep 0 HList], [])
     <> [HNew [names sc]; HVal (ONat (length R)); HVal (ORows (spec_take Z idx R)); HVal (ORows R)].
 Proof.
@@ -553,7 +553,7 @@ Qed.
    one listed takes every row, the second lists nothing *)
 Example C03_siblings_of_unmaterialised_generator_refuted :
   exists (sc : schema N) (R : list (list Z)) (mask : list bool),
-    c03h_run false ([mkHI sc R true],
+    c03h_run false ([mkHI sc R KGen],
                     [mkHStep 0 (HOp (Filter mask)); mkHStep 0 (HOp (Filter mask)); mkHStep 1 HList; mkHStep 2 HList], [])
     <> [HNew [names sc]; HNew [names sc]; HVal (ORows (spec_filter Z mask R)); HVal (ORows (spec_filter Z mask R))].
 Proof.
@@ -630,8 +630,8 @@ Print Assumptions C03_append_adds_the_row_to_its_frame_only.
    gives the named columns every time and leaves the list alone; append reaches one frame only *)
 Example C03_session_nonvacuous :
   c03a_run true
-    ([mkHI (mkS Untyped [0%N; 1%N; 2%N]) [[1; 2; 3]; [4; 5; 6]]%Z false;
-      mkHI (mkS Untyped [2%N; 1%N; 0%N]) [[30; 20; 10]]%Z true],
+    ([mkHI (mkS Untyped [0%N; 1%N; 2%N]) [[1; 2; 3]; [4; 5; 6]]%Z KList;
+      mkHI (mkS Untyped [2%N; 1%N; 0%N]) [[30; 20; 10]]%Z KGen],
      [[AName 2%N; AName 0%N]],
      [mkAStep 0 (ACollect 0 None); mkAStep 0 (APeek 0); mkAStep 0 (ASelect 0); mkAStep 2 (ACollect 0 None);
       mkAStep 1 (AGetItem 0); mkAStep 0 (APeek 0);
@@ -649,7 +649,103 @@ Example C03_collect_rewrites_callers_list_refuted :
     c03a_run true c = [AOut (HVal (OCols [[3; 6]; [1; 4]]%Z)); AArg [AName 2%N; AName 0%N]; AOut (HNew [[2%N; 0%N]])] /\
     c03a_run false c = [AOut (HVal (OCols [[3; 6]; [1; 4]]%Z)); AArg [AInt 2%Z; AInt 0%Z]; AOut (HVal (ORaise ValueError))].
 Proof.
-  exists ([mkHI (mkS Untyped [0%N; 1%N; 2%N]) [[1; 2; 3]; [4; 5; 6]]%Z false], [[AName 2%N; AName 0%N]],
+  exists ([mkHI (mkS Untyped [0%N; 1%N; 2%N]) [[1; 2; 3]; [4; 5; 6]]%Z KList], [[AName 2%N; AName 0%N]],
           [mkAStep 0 (ACollect 0 None); mkAStep 0 (APeek 0); mkAStep 0 (ASelect 0)], []).
   split; vm_compute; reflexivity.
 Qed.
+
+(* ====================================================================== *)
+(* Round 7: a frame whose row container is a TUPLE of rows (an eager       *)
+(* sequence that is not a list: DataFrame(rows=tuple(...))).  It is its    *)
+(* list of rows under every operator, and materialize() makes it a list.   *)
+(* ====================================================================== *)
+
+(* materialize() on a tuple-backed frame: the rows come back and the frame is list-backed from then on *)
+Theorem C03_tuple_backed_materialize :
+  forall (V : Type) (dflt : V) (Nm : Type) (st : hstate V Nm) (i : nat) (sc : schema Nm) (l : list (list V)),
+  nth_error (henv st) i = Some (mkH sc (RT l)) ->
+  hmat V dflt Nm st i = (now_list V Nm st i sc l, l).
+Proof. exact hmat_tuple. Qed.
+Print Assumptions C03_tuple_backed_materialize.
+
+(* Every operator that looks at the rows (len, head/tail/slice, query, distinct, to_batches, collect /
+   indexing, row, iteration; any arguments, raising or not), in any state of any session, called on a
+   tuple-backed frame: the outcome is the operator of Model/C03.v on the plain LIST of its rows (the
+   functions the round-1 theorems C03_slice ... C03_collect, C03_operator_step are about); afterwards
+   the frame is list-backed with the same rows, unless the operator only iterates. *)
+Theorem C03_tuple_backed_frame_is_its_list_of_rows :
+  forall (V : Type) (veqb : V -> V -> bool) (dflt : V) (Nm : Type) (nmeqb : Nm -> Nm -> bool)
+         (early : bool) (st : hstate V Nm) (s i : nat) (o : op V Nm) (sc : schema Nm) (l : list (list V)),
+  observes V Nm o = true -> Nat.modulo s (length (henv st)) = i ->
+  nth_error (henv st) i = Some (mkH sc (RT l)) ->
+  hstep V veqb dflt Nm nmeqb early st (mkHStep s (HOp o)) =
+  interpret V Nm (if consumes V Nm o then st else now_list V Nm st i sc l)
+            (snd (apply_op V veqb dflt Nm nmeqb o (mkF sc (Eager l)))).
+Proof. exact hstep_tuple_op. Qed.
+Print Assumptions C03_tuple_backed_frame_is_its_list_of_rows.
+
+(* ... exactly what the same call yields on the list-backed frame of the same rows *)
+Theorem C03_list_backed_frame_is_its_list_of_rows :
+  forall (V : Type) (veqb : V -> V -> bool) (dflt : V) (Nm : Type) (nmeqb : Nm -> Nm -> bool)
+         (early : bool) (st : hstate V Nm) (s i : nat) (o : op V Nm) (sc : schema Nm) (l : list (list V)),
+  observes V Nm o = true -> Nat.modulo s (length (henv st)) = i ->
+  nth_error (henv st) i = Some (mkH sc (RL l)) ->
+  hstep V veqb dflt Nm nmeqb early st (mkHStep s (HOp o)) =
+  interpret V Nm st (snd (apply_op V veqb dflt Nm nmeqb o (mkF sc (Eager l)))).
+Proof. exact hstep_list_op. Qed.
+Print Assumptions C03_list_backed_frame_is_its_list_of_rows.
+
+(* list(df) of a tuple-backed frame yields each row once, in order *)
+Theorem C03_tuple_backed_lists_its_rows :
+  forall (V : Type) (veqb : V -> V -> bool) (dflt : V) (Nm : Type) (nmeqb : Nm -> Nm -> bool)
+         (early : bool) (st : hstate V Nm) (s i : nat) (sc : schema Nm) (l : list (list V)),
+  Nat.modulo s (length (henv st)) = i -> nth_error (henv st) i = Some (mkH sc (RT l)) ->
+  hstep V veqb dflt Nm nmeqb early st (mkHStep s HList) = (now_list V Nm st i sc l, HVal (ORows l)).
+Proof. exact hstep_tuple_list. Qed.
+Print Assumptions C03_tuple_backed_lists_its_rows.
+
+(* ANY object-level program (any operators - + , select / filter / take and their unforced results
+   included -, any arguments, any order of forcing, either binding) on ANY initial frames: replacing every
+   tuple-backed initial frame by the list-backed frame of the same rows changes no output of the run.
+   (hrun has no append(): that probe tells a tuple from a list, see C03_tuple_backed_append.) *)
+Theorem C03_tuple_backed_programs :
+  forall (V : Type) (veqb : V -> V -> bool) (dflt : V) (Nm : Type) (nmeqb : Nm -> Nm -> bool)
+         (early : bool) (fs : list (hinit V Nm)) (prog : list (hstepd V Nm)),
+  snd (hrun V veqb dflt Nm nmeqb early (hstart V Nm fs (mkHS [] [])) prog) =
+  snd (hrun V veqb dflt Nm nmeqb early (hstart V Nm (map as_list_init fs) (mkHS [] [])) prog).
+Proof. exact tuple_programs. Qed.
+Print Assumptions C03_tuple_backed_programs.
+
+(* ... and in any state, step by step: the states stay related by "every tuple replaced by its list" *)
+Theorem C03_tuple_backed_step_simulation :
+  forall (V : Type) (veqb : V -> V -> bool) (dflt : V) (Nm : Type) (nmeqb : Nm -> Nm -> bool)
+         (early : bool) (st : hstate V Nm) (s : hstepd V Nm),
+  hstep V veqb dflt Nm nmeqb early (listed_st st) s =
+  (listed_st (fst (hstep V veqb dflt Nm nmeqb early st s)), snd (hstep V veqb dflt Nm nmeqb early st s)).
+Proof. exact hstep_listed. Qed.
+Print Assumptions C03_tuple_backed_step_simulation.
+
+(* non-vacuity, and + (not covered by the step theorems above: evaluated): the round-7 demonstration -
+   collect, + with a list-backed frame in either order, a window then collect, the listings *)
+Example C03_tuple_backed_nonvacuous :
+  let sc := mkS Untyped [0%N; 1%N] in
+  observes Z N (Collect1 (CName 0%N) None) = true /\ consumes Z N (Collect1 (CName 0%N) None) = false /\
+  c03h_run false ([mkHI sc [[1; 2]; [3; 4]; [5; 6]]%Z KTuple; mkHI sc [[9; 0]]%Z KList],
+     [mkHStep 0 (HOp (Collect1 (CName 0%N) None)); mkHStep 0 (HOp (AddF 1 false)); mkHStep 1 (HOp (AddF 0 false));
+      mkHStep 0 (HOp (Slice 1%Z (Some 2%Z))); mkHStep 4 (HOp (Collect1 (CIdx 0%Z) None));
+      mkHStep 2 HList; mkHStep 3 HList; mkHStep 0 HList], [])
+  = [HVal (OCol [1; 3; 5]%Z); HNew [[0%N; 1%N]]; HNew [[0%N; 1%N]]; HNew [[0%N; 1%N]]; HVal (OCol [3; 5]%Z);
+     HVal (ORows [[1; 2]; [3; 4]; [5; 6]; [9; 0]]%Z); HVal (ORows [[9; 0]; [1; 2]; [3; 4]; [5; 6]]%Z);
+     HVal (ORows [[1; 2]; [3; 4]; [5; 6]]%Z)].
+Proof. repeat split; vm_compute; reflexivity. Qed.
+
+(* the container matters only for append(): refused while it is a tuple (iterating does not change it),
+   accepted once len() has materialised it; an EMPTY tuple is replaced by a list in the constructor *)
+Example C03_tuple_backed_append :
+  let sc := mkS Untyped [0%N; 1%N] in
+  c03a_run true ([mkHI sc [[1; 2]; [3; 4]]%Z KTuple; mkHI sc [] KTuple], [],
+     [mkAStep 0 (AAppend [7; 8]%Z); mkAStep 0 (APlain (HOp Iterate)); mkAStep 0 (AAppend [7; 8]%Z); mkAStep 0 (APlain (HOp Len));
+      mkAStep 0 (AAppend [7; 8]%Z); mkAStep 0 (APlain HList); mkAStep 1 (AAppend [7; 8]%Z); mkAStep 1 (APlain HList)], [])
+  = [AOut (HVal (ORaise TypeError)); AOut (HVal (ORows [[1; 2]; [3; 4]]%Z)); AOut (HVal (ORaise TypeError)); AOut (HVal (ONat 2));
+     AOut (HNew []); AOut (HVal (ORows [[1; 2]; [3; 4]; [7; 8]]%Z)); AOut (HNew []); AOut (HVal (ORows [[7; 8]]%Z))].
+Proof. vm_compute. reflexivity. Qed.
